@@ -179,7 +179,7 @@ def _collect_worker(job):
     db = None
     if annotated:
         g2d = repo_import.mod("src.gtf2db")
-        dbp = os.path.join(d, "inproc.db")
+        dbp = os.path.join(d, "inproc_%s.db" % ("hm" if high_memory else "lm"))
         if not os.path.exists(dbp):
             g2d.gtf2db(os.path.join(d, "a.gtf"), dbp, complete_db=True, check_gtf=False)
         db = gffutils.FeatureDB(dbp)
